@@ -26,6 +26,17 @@ def check_C15(run):
             cases, g = stage_gen_trees(run, kinds, depth, ws=0, sample=n, name="gen_deep%d" % depth)
             res = stage_fold_groups(run, cases, name="fold_deep%d" % depth)
             stage_judge_fold(run, res, name="judge_fold_deep%d" % depth)
+    # trees Parse cannot build: every schema document of GenJson that decodes and validates (lists of patterns, literals in odd places ...)
+    import checks_json
+    d = run.sub("gen_json")
+    out, rc, secs = run.tlc(d, "GenJson", checks_json.GENJSON_CFG % run.tier, workers=1, timeout=1800, seed=run.seed, xss=True)
+    if '"GENERATED' not in out:
+        raise Broken("GenJson failed: " + (run.tlc_error(out) or out[-400:]))
+    res = os.path.join(run.work, "fold_docs.ndjson")
+    s = run.harness(["fold-docs", "-in", os.path.join(d, "docs.ndjson"), "-out", res])
+    run.stage("fold_docs", **s)
+    run.evaluations += s.get("renders", 0)
+    stage_judge_fold(run, res, name="judge_fold_docs")
     run.notes.append("every expression tree to depth 2 over the leaf alphabet (exhaustive) and sampled deeper trees (seed %d), each rendered "
                      "with 1 + 2*|operators of the tree| render-function maps" % run.seed)
 
